@@ -1,4 +1,5 @@
 import PyodaProofs.C19
+import PyodaProofs.GenAgreeC19
 
 #print axioms Pyoda.C19.fakeClock_refines_spec
 #print axioms Pyoda.C19.step_preserves_wf
@@ -9,3 +10,24 @@ import PyodaProofs.C19
 #print axioms Pyoda.C19.sequential_reads_distinct
 #print axioms Pyoda.C19.advanceUnit_blocks_counterexample
 #print axioms Pyoda.C19.zonedClock_spec
+#print axioms Pyoda.GenAgree.C19.gen_FakeClock_new_eq
+#print axioms Pyoda.GenAgree.C19.gen_FakeClock_advance_eq
+#print axioms Pyoda.GenAgree.C19.gen_FakeClock_advanceNanoseconds_eq
+#print axioms Pyoda.GenAgree.C19.gen_FakeClock_advanceTicks_eq
+#print axioms Pyoda.GenAgree.C19.gen_FakeClock_advanceMilliseconds_eq
+#print axioms Pyoda.GenAgree.C19.gen_FakeClock_advanceSeconds_eq
+#print axioms Pyoda.GenAgree.C19.gen_FakeClock_advanceMinutes_eq
+#print axioms Pyoda.GenAgree.C19.gen_FakeClock_advanceHours_eq
+#print axioms Pyoda.GenAgree.C19.gen_FakeClock_advanceDays_eq
+#print axioms Pyoda.GenAgree.C19.gen_FakeClock_reset_eq
+#print axioms Pyoda.GenAgree.C19.gen_FakeClock_getCurrentInstant_eq
+#print axioms Pyoda.GenAgree.C19.gen_FakeClock_getAutoAdvance_eq
+#print axioms Pyoda.GenAgree.C19.gen_FakeClock_setAutoAdvance_eq
+#print axioms Pyoda.GenAgree.C19.gen_ZonedClock_zone_eq
+#print axioms Pyoda.GenAgree.C19.gen_ZonedClock_calendar_eq
+#print axioms Pyoda.GenAgree.C19.gen_ZonedClock_getCurrentInstant_eq
+#print axioms Pyoda.GenAgree.C19.gen_ZonedClock_getCurrentZonedDateTime_eq
+#print axioms Pyoda.GenAgree.C19.gen_ZonedClock_getCurrentLocalDateTime_eq
+#print axioms Pyoda.GenAgree.C19.gen_ZonedClock_getCurrentOffsetDateTime_eq
+#print axioms Pyoda.GenAgree.C19.gen_ZonedClock_getCurrentDate_eq
+#print axioms Pyoda.GenAgree.C19.gen_ZonedClock_getCurrentTimeOfDay_eq
